@@ -206,6 +206,22 @@ def firstKindsDiff (a b : Expr) (days : List Int) : Option Int :=
   days.find? (fun d => cmpDay (evalDay a d) (evalDay b d) == .kinds)
 
 def handle (op : String) (args impl : List String) : Option String :=
+  if op == "nz.api" then
+    -- `OpeningHours::normalize()` under a context, implementation against implementation: the day's
+    -- kinds and the state at noon must be those of the value it was called on, whether the context
+    -- was attached before or after normalizing
+    (match impl with
+     | "parse-error" :: _ => some "ok parse-error"
+     | [t] => if t.startsWith "parse-panic" then some "ok parse-panic" else if t == "rejected" then some "ok rejected" else none
+     | _ =>
+       match splitBars impl with
+       | [[k0], [k1], [k2], [s0, s1]] =>
+         if k1.startsWith "panic" then some s!"fail panic class=panic at={k1}"
+         else if k0 != k1 then some s!"fail meaning-through-api class=none normalized-with-its-context"
+         else if k0 != k2 then some s!"fail meaning-through-api class=none context-attached-after-normalizing"
+         else if s0 != s1 then some s!"fail meaning-through-api class=none state-at-noon"
+         else some (if k0 == "-" then "ok api-empty" else "ok api")
+       | _ => none) else
   if op != "nz.norm" then none else
   match impl with
   | "parse-error" :: _ => some "ok parse-error"
